@@ -311,10 +311,165 @@ fn representation_pairs(pid: &str) -> Option<String> {
     None
 }
 
+
+/// C08: an "unaware" node is ChiaDialect with every softfork extension unknown (the guard body is skipped and the declared cost
+/// charged) and every 4-byte opcode priced by the unknown-operator rule.  Whenever the aware run succeeds the unaware run must
+/// give the same result, cost and allocator counts (pre-hard-fork cost model, consensus mode).
+struct Unaware(ChiaDialect);
+impl clvmr::dialect::Dialect for Unaware {
+    fn quote_kw(&self) -> u32 {
+        self.0.quote_kw()
+    }
+    fn apply_kw(&self) -> u32 {
+        self.0.apply_kw()
+    }
+    fn softfork_kw(&self) -> u32 {
+        self.0.softfork_kw()
+    }
+    fn softfork_extension(&self, _ext: u32) -> clvmr::dialect::OperatorSet {
+        clvmr::dialect::OperatorSet::Default
+    }
+    fn flags(&self) -> ClvmFlags {
+        self.0.flags()
+    }
+    fn gc_candidate(&self, allocator: &Allocator, op: NodePtr) -> bool {
+        self.0.gc_candidate(allocator, op)
+    }
+    fn op(&self, allocator: &mut Allocator, op: NodePtr, args: NodePtr, max_cost: u64, _ext: clvmr::dialect::OperatorSet) -> clvmr::reduction::Response {
+        if allocator.atom_len(op) == 4 {
+            return clvmr::more_ops::op_unknown(allocator, op, args, max_cost, self.0.flags());
+        }
+        self.0.op(allocator, op, args, max_cost, clvmr::dialect::OperatorSet::Default)
+    }
+    fn allow_unknown_ops(&self) -> bool {
+        self.0.allow_unknown_ops()
+    }
+}
+
+fn run_dialect<D: clvmr::dialect::Dialect>(t: &T, d: &D) -> Outcome {
+    let mut al = Allocator::new();
+    let p = build(&mut al, t);
+    let env = al.nil();
+    let (a0, p0, h0) = (al.atom_count(), al.pair_count(), al.heap_size());
+    match run_program(&mut al, d, p, env, 0) {
+        Ok(red) => Outcome { ok: true, cost: red.0, result: hex(&node_to_bytes(&al, red.1).unwrap_or_default()), err: String::new(), atoms: al.atom_count() - a0, pairs: al.pair_count() - p0, heap: al.heap_size() - h0 },
+        Err(e) => Outcome { ok: false, cost: 0, result: String::new(), err: format!("{e}"), atoms: al.atom_count() - a0, pairs: al.pair_count() - p0, heap: al.heap_size() - h0 },
+    }
+}
+
+fn unhex(s: &str) -> Vec<u8> {
+    (0..s.len()).step_by(2).map(|i| u8::from_str_radix(&s[i..i + 2], 16).unwrap()).collect()
+}
+
+fn unaware_pairs(pid: &str) -> Option<String> {
+    // valid signature vectors (op-tests/test-secp-verify.txt of the repository)
+    let k1 = (
+        unhex("02888b0c110ef0b4962e3fc6929cbba7a8bb25b4b2c885f55c76365018c909b439"),
+        unhex("74c2941eb2ebe5aa4f2287a4c5e506a6290c045004058de97a7edf0122548668"),
+        unhex("1acb7a6e062e78ccd4237b12c22f02b5a8d9b33cb3ba13c35e88e036baa1cbca75253bb9a96ffc48b43196c69c2972d8f965b1baa4e52348d8081cde65e6c018"),
+    );
+    let r1 = (
+        unhex("0437a1674f3883b7171a11a20140eee014947b433723cf9f181a18fee4fcf96056103b3ff2318f00cca605e6f361d18ff0d2d6b817b1fa587e414f8bb1ab60d2b9"),
+        unhex("9f86d081884c7d659a2feaa0c55ad015a3bf4f1b2b0b822cd15d6c15b0f00a08"),
+        unhex("e8de121f4cceca12d97527cc957cca64a4bcfc685cffdee051b38ee81cb22d7e2c187fec82c731018ed2d56f08a4a5cbc40c5bfe9ae18c02295bb65e7f605ffc"),
+    );
+    let mut progs: Vec<(String, T)> = vec![];
+    for (prefix, v) in [([0x13u8, 0xd6, 0x1f], &k1), ([0x1c, 0x3a, 0x8f], &r1)] {
+        for low in [0x00u8, 0x01, 0x3f, 0x40, 0x41, 0x80, 0xc0, 0xff] {
+            let opc = [prefix[0], prefix[1], prefix[2], low];
+            progs.push((format!("4-byte opcode {} with a valid signature", hex(&opc)), list(vec![a(&opc), q(a(&v.0)), q(a(&v.1)), q(a(&v.2))])));
+        }
+        // neighbours of the multiplier
+        for delta in [-1i32, 1] {
+            let m = (((prefix[0] as u32) << 16 | (prefix[1] as u32) << 8 | prefix[2] as u32) as i32 + delta) as u32;
+            let opc = [(m >> 16) as u8, (m >> 8) as u8, m as u8, 0];
+            progs.push((format!("4-byte opcode {} with a valid signature", hex(&opc)), list(vec![a(&opc), q(a(&v.0)), q(a(&v.1)), q(a(&v.2))])));
+        }
+    }
+    let bodies: Vec<(&str, u64, T)> = vec![
+        ("guard ext 0 around (q . 42)", 0, q(n(42))),
+        ("guard ext 0 around allocations", 0, op(4, vec![op(11, vec![q(a(b"hello"))]), op(14, vec![q(a(b"ab")), q(a(b"cdefgh"))])])),
+        ("guard ext 0 around coinid / g1 ops", 0, op(51, vec![op(29, vec![])])),
+        ("guard ext 1 around keccak256", 1, op(62, vec![q(a(b"foobar"))])),
+        ("guard ext 1 around keccak256 + concat", 1, op(14, vec![op(62, vec![q(a(b"foobar"))]), q(a(b"0123456789abcdef"))])),
+        ("guard ext 1 around a big sum", 1, op(16, vec![q(a(&[0x7f; 40])), q(a(&[0x7f; 40]))])),
+        ("guard ext 2 (unknown to both)", 2, q(n(42))),
+    ];
+    for (nm, ext, body) in bodies {
+        let g = op(36, vec![q(n(1000)), q(n(ext)), q(body.clone()), q(nil())]);
+        progs.push((nm.to_string(), g.clone()));
+        // the guard's nil result consumed by an enclosing operator, and a guard nested in a guard
+        progs.push((format!("{nm}, inside (c . ())"), op(4, vec![g.clone(), q(nil())])));
+        progs.push((format!("{nm}, nested in a guard ext 0"), op(36, vec![q(n(1000)), q(n(0)), q(g), q(nil())])));
+    }
+    for (name, t0) in progs {
+        for base in [ClvmFlags::empty(), ClvmFlags::ENABLE_GC, ClvmFlags::LIMIT_HEAP, ClvmFlags::MALACHITE] {
+            // declared costs are fixed up (innermost first) so that the AWARE run succeeds
+            let t = fix_nested(&t0, base);
+            let (t1, t2) = (t.clone(), t.clone());
+            let aware = std::panic::catch_unwind(std::panic::AssertUnwindSafe(move || run_dialect(&t1, &ChiaDialect::new(base))));
+            let unaware = std::panic::catch_unwind(std::panic::AssertUnwindSafe(move || run_dialect(&t2, &Unaware(ChiaDialect::new(base)))));
+            let (Ok(aw), Ok(un)) = (aware, unaware) else {
+                return Some(found(pid, &name, &t, format!("flags {:#x}: panic", base.bits())));
+            };
+            if std::env::var("VREPLAY_DEBUG").is_ok() {
+                eprintln!("{name} flags {:#x}: aware {:?} unaware {:?}", base.bits(), aw, un);
+            }
+            if aw.ok && un != aw {
+                return Some(found(pid, &name, &t, format!("flags {:#x}: extension-aware node {:?} ; unaware node {:?}", base.bits(), aw, un)));
+            }
+        }
+    }
+    None
+}
+
+/// fix_softfork for a guard nested in the body of another guard or in an operator call (innermost first)
+fn fix_nested(t: &T, flags: ClvmFlags) -> T {
+    fn is_sf(t: &T) -> bool {
+        matches!(t, T::P(o, _) if matches!(&**o, T::A(b) if b == &vec![36u8]))
+    }
+    match t {
+        T::P(l, r) if is_sf(t) => {
+            // (36 (q . cost) (q . ext) (q . body) (q . ()))
+            if let T::P(cost, r2) = &**r {
+                if let T::P(ext, r3) = &**r2 {
+                    if let T::P(prog, tail) = &**r3 {
+                        if let T::P(qk, body) = &**prog {
+                            let body2 = fix_nested(body, flags);
+                            let with_cost = |c: T| cons(l.as_ref().clone(), cons(c, cons(ext.as_ref().clone(), cons(cons(qk.as_ref().clone(), body2.clone()), tail.as_ref().clone()))));
+                            // the body's own cost under the operator set the extension enables
+                            let is_ext1 = matches!(&**ext, T::P(_, e) if matches!(&**e, T::A(b) if b == &vec![1u8]));
+                            let inner_flags = if is_ext1 { flags | ClvmFlags::ENABLE_KECCAK_OPS_OUTSIDE_GUARD } else { flags };
+                            let o = run(&body2, inner_flags, 0);
+                            if o.ok {
+                                for delta in [140u64, 500] {
+                                    let cand = with_cost(q(n(o.cost + delta)));
+                                    if run(&cand, flags, 0).ok {
+                                        return cand;
+                                    }
+                                }
+                            }
+                            return fix_softfork(&with_cost(cost.as_ref().clone()), flags);
+                        }
+                    }
+                }
+            }
+            t.clone()
+        }
+        T::P(l, r) => cons(fix_nested(l, flags), fix_nested(r, flags)),
+        _ => t.clone(),
+    }
+}
+
 pub fn search(pid: &str) -> String {
     std::panic::set_hook(Box::new(|_| {}));
     if pid == "C03" {
         if let Some(f) = representation_pairs(pid) {
+            return f;
+        }
+    }
+    if pid == "C08" {
+        if let Some(f) = unaware_pairs(pid) {
             return f;
         }
     }
